@@ -218,9 +218,9 @@ def gen_plan(seed, tier, index):
             b['reload'] = r.randrange(1 << 20)      # other weights are loaded into the SAME model object first
         batches.append(b)
         prev = b
-    if r.random() < 0.03:
+    if r.random() < 0.05:
         # a very large batch of very short lines (process_lines builds up to 480*batch_size // width lines per batch)
-        batches.insert(r.randrange(len(batches) + 1), {'n': r.choice([255, 256, 257, 512]), 'w': r.choice([16, 32]),
+        batches.insert(r.randrange(len(batches) + 1), {'n': r.choice([256, 256, 512, 255, 257]), 'w': r.choice([16, 32]),
                                                        'seed': r.randrange(1 << 30), 'cached': True, 'huge': True})
         m['dim'], m['heads'], m['dec_layers'], m['ff'] = 8, r.choice([1, 2]), min(m['dec_layers'], 2), 16
     cap = max(b['w'] for b in batches) // 4
